@@ -1885,7 +1885,6 @@ func (r stack) defaultAssertionHandler(x any) (str string) {
 			// Handle NOTs a little differently
 			// when nested and when not using
 			// symbol operators ...
-			ik = foldValue(Xs.positive(cfold), ik)
 			str = ik + ` ` + Xs.String()
 		} else {
 			str = Xs.String()
